@@ -334,7 +334,7 @@ fn main() {
             };
 
             if !lint.no_output {
-                diags.sort();
+                parser.sort_diagnostics(&mut diags);
 
                 // Output as JSON
                 if lint.json {
